@@ -189,6 +189,7 @@ func cmdCheck(args []string) int {
 			return 2
 		}
 		loadT += time.Since(tl)
+		instrumentedSources = append(instrumentedSources, eng.instrumented...)
 		var entries []EntryCfg
 		for _, e := range spec.Entries {
 			if e.Tier == "thorough" && *tier != "thorough" {
